@@ -90,7 +90,19 @@ func TestVerif_C04E2E(t *testing.T) {
 		}
 		tr.Reset(kit.E{"src": "e2e", "real": true, "lim": []int{2048, 2048, 4096}, "consts": []int{2048, 2048, 4096}})
 		salt := 0
+		var attempt func(addrLen, msgLen int) kit.E
+		// deadlines are real time: a case that shows a timeout symptom is tried once more on a fresh stream and the second
+		// observation counts (a reader that swallows payload fails deterministically, a scheduling hiccup does not)
 		one := func(addrLen, msgLen int) {
+			e := attempt(addrLen, msgLen)
+			inDom := addrLen >= 1 && addrLen <= 2048
+			if inDom && (e["errText"] == "timeout" || (msgLen < 0 && !(e["payloadSame"].(bool) && e["replySame"].(bool)))) {
+				e = attempt(addrLen, msgLen)
+				e["retried"] = true
+			}
+			tr.Ev(e)
+		}
+		attempt = func(addrLen, msgLen int) kit.E {
 			salt++
 			addr := c04Addr(addrLen, salt)
 			payload := []byte(fmt.Sprintf("PAYLOAD-%04d-first-bytes", salt))
@@ -104,30 +116,43 @@ func TestVerif_C04E2E(t *testing.T) {
 			}
 			ob.mu.Unlock()
 			e := kit.E{"ev": "E2E", "fast": fast, "addrLen": addrLen, "msgLen": msgLen, "called": false, "ncalls": 0, "addrSame": false,
-				"dialOk": false, "payloadSame": false, "replySame": false, "isDialErr": false, "msgSame": false, "errText": ""}
-			var conn net.Conn
-			var derr error
-			done := make(chan struct{})
+				"dialOk": false, "payloadSame": false, "replySame": false, "isDialErr": false, "msgSame": false, "errText": "", "retried": false}
+			type cres struct {
+				conn      net.Conn
+				derr      error
+				replySame bool
+			}
+			resc := make(chan cres, 1)
 			go func() {
-				defer close(done)
-				conn, derr = c.TCP(addr)
-				if derr == nil {
-					conn.SetDeadline(time.Now().Add(3 * time.Second))
-					if _, werr := conn.Write(payload); werr != nil {
-						derr = werr
+				var r cres
+				r.conn, r.derr = c.TCP(addr)
+				if r.derr == nil {
+					r.conn.SetDeadline(time.Now().Add(3 * time.Second))
+					if _, werr := r.conn.Write(payload); werr != nil {
+						r.derr = werr
 					}
 					rb := make([]byte, len(reply))
-					n, rerr := io.ReadFull(conn, rb)
-					e["replySame"] = rerr == nil && string(rb[:n]) == string(reply)
-					if rerr != nil && derr == nil {
-						derr = rerr // with fast open the response (and a dial error) surfaces at the first Read
+					n, rerr := io.ReadFull(r.conn, rb)
+					r.replySame = rerr == nil && string(rb[:n]) == string(reply)
+					if rerr != nil && r.derr == nil {
+						r.derr = rerr // with fast open the response (and a dial error) surfaces at the first Read
 					}
 				}
+				resc <- r
 			}()
+			var conn net.Conn
+			var derr error
 			select {
-			case <-done:
+			case r := <-resc:
+				conn, derr = r.conn, r.derr
+				e["replySame"] = r.replySame
 			case <-time.After(8 * time.Second):
 				e["errText"] = "timeout"
+				go func() { // whenever the call returns after all: release its stream
+					if r := <-resc; r.conn != nil {
+						r.conn.Close()
+					}
+				}()
 			}
 			if conn != nil {
 				defer conn.Close()
@@ -160,7 +185,7 @@ func TestVerif_C04E2E(t *testing.T) {
 					}
 				}
 			}
-			tr.Ev(e)
+			return e
 		}
 		for _, l := range []int{1, 2, 62, 63, 64, 65, 255, 256, 1000, 2047, 2048} {
 			one(l, -1)
